@@ -20,7 +20,7 @@ RULE = ("all failure patterns over attempts (F=exception, T=timeout, S=success) 
         "trivial = N=0 with success")
 ASSUMPTIONS = ["Redis and RabbitMQ are wire-level fakes", "virtual time", "cron recurrence not exercised (croniter absent)"]
 EVAL_COUNTER = "chains_judged"
-REQUIRED = ["chains_judged", "retries_timed", "final_dead", "final_gone", "final_rescheduled", "forced_over_budget", "timezone_offset_runs", "waiting_retries_inspected_and_returned"]
+REQUIRED = ["chains_judged", "retries_timed", "final_dead", "final_gone", "final_rescheduled", "forced_over_budget", "timezone_offset_runs", "waiting_retries_inspected_and_returned", "looks_before_a_months_long_backoff_is_over"]
 CASE_TIMEOUT = 150
 
 POLICIES = ("default", "default_rand", "zero", "linear", "lambda")
@@ -86,6 +86,11 @@ def gen_cases(tier, seed):
             break
         for kind in kinds:
             cases.append({"kind": kind, "policy": ["linear", "lambda", "default"][i % 3], "rec": i % 2 == 1, "N": 2, "patterns": patterns(2), "mode": "ladder", "seed": rnd.randrange(10**6), "tz": tz})
+    # back-offs of months (a policy for jobs that depend on something a human has to repair): the retry is not run weeks
+    # early by a worker that comes up in between, and runs when its day has come
+    for kind in kinds:
+        for days in ((60,) if tier == "quick" else (50, 60, 400)):
+            cases.append({"type": "months", "kind": kind, "days": days, "seed": rnd.randrange(10**6), "latency": None if kind == "mem" else 0.003, "policy": "months", "rec": False, "N": 2, "mode": "months", "patterns": []})
     if tier == "thorough":
         extra = []
         for c in cases:
@@ -123,9 +128,68 @@ def make_policy(name, rnd):
 PERIOD = 25.0
 
 
+async def months_scenario(loop, case, out, stats, fps):
+    from rv.sim.loop import EPOCH_S
+    from rv.wl import World, run_worker
+
+    kind, days = case["kind"], case["days"]
+    w = World(loop, kind, converter="basic", seed=case["seed"], latency=case["latency"])
+    try:
+        await w.open()
+        policy = lambda retry_number=1: timedelta(days=days * retry_number, seconds=0.25)  # noqa: E731
+        r = w.router(retry_policy=policy)
+        w.scripted_actor(r, "act")
+        await w.conn.message_broker.queue_declare("default")
+        await w.job("act", "m1", {"by_attempt": [{"do": "raise", "exc": "ValueError"}, {"do": "ok", "ret": 1}]}, retries=2, timeout=timedelta(seconds=5), store_result=False).enqueue()
+        sig = __import__("signal").SIGUSR1
+
+        def starts():
+            return [e for e in w.log.events if e.get("id") == "m1" and e["k"] == "actor_start"]
+
+        def requeues():
+            return [e for e in w.log.events if e.get("id") == "m1" and e["k"] == "ret" and e.get("op") == "requeue" and e.get("depth") == 0]
+
+        info = await run_worker(w, w.worker([r], tasks_limit=5, graceful_shutdown_time=2.0, handle_signals=[sig]), until=lambda: bool(requeues()), horizon=20.0)
+        if not requeues() or info["exc"] is not None:
+            out.append(V("harness_or_api_error", kind, "months", f"the first failure was not put back for a retry: {info}"))
+            return
+        rq = next(e for e in w.log.events if e.get("id") == "m1" and e["k"] == "call" and e.get("op") == "requeue" and e.get("depth") == 0)
+        t_due = rq["t"] + policy(1).total_seconds()
+        ctx = f"months/{days}d"
+        fps.add(f"{kind}/months/{days}")
+        stats["chains_judged"] += 1
+        # workers that come up a day later, after 49.8 days (2^32 ms and a little), a day before the retry is due
+        for t_look in sorted({rq["t"] + 86400.0, rq["t"] + 49.8 * 86400.0, t_due - 86400.0}):
+            if t_look >= t_due - 3600:
+                continue
+            await asyncio.sleep(0.5)
+            await w.rig.quiesce_wire()
+            loop.jump_to(t_look)
+            stats["looks_before_a_months_long_backoff_is_over"] += 1
+            n0 = len(starts())
+            await run_worker(w, w.worker([r], tasks_limit=5, graceful_shutdown_time=2.0, handle_signals=[sig]), until=lambda: len(starts()) > n0, horizon=4.0)
+            if len(starts()) > n0:
+                out.append(V("early_retry", kind, ctx + "/start", f"retry 1 is due {days} days and 0.25 s after the failure (t={rq['t']:.3f}); a worker started {(loop.time() - rq['t']) / 86400.0:.2f} days after it executed the retry, "
+                                                                  f"{(t_due - starts()[-1]['t']) / 86400.0:.2f} days early"))
+                return
+        await asyncio.sleep(0.5)
+        await w.rig.quiesce_wire()
+        loop.jump_to(t_due + 1.0)
+        n0 = len(starts())
+        await run_worker(w, w.worker([r], tasks_limit=5, graceful_shutdown_time=2.0, handle_signals=[sig]), until=lambda: len(starts()) > n0 and not w.inflight, horizon=15.0)
+        stats["retries_timed"] += 1
+        if len(starts()) != 2 or starts()[-1].get("attempt") != 1:
+            out.append(V("attempt_count", kind, ctx + "/late", f"the retry due {days} days after the failure was not executed by a worker running 1-16 s after its due time; executions {[(round(e['t'], 1), e.get('attempt')) for e in starts()]}, place {w.rig.snapshot().get('m1')}"))
+        stats["unknown_server_commands"] += w.rig.unknown_commands()
+    finally:
+        await w.close()
+
+
 async def scenario(loop, case, out, stats, fps, samples):
     from rv.wl import World, run_worker
 
+    if case.get("type") == "months":
+        return await months_scenario(loop, case, out, stats, fps)
     kind = case["kind"]
     rnd = random.Random(case["seed"])
     lat = case.get("latency", None if kind == "mem" else 0.001)
